@@ -88,13 +88,17 @@ structure MW where
   tcall : Rat := 0                 -- date at which the current op was called (= stamp of the previous event)
   kill : Option Rat := none        -- pending kill date
   slots : List (Nat × Rat × Option Rat) := []   -- slot ↦ (start stamp, natural duration if timed)
+  comm : List Nat := []            -- slots holding a comm: two heap phases (latency, transfer), each with its window
   err : Option String := none
+
+/-- how early an activity of slot `s` may complete: one timing precision per heap phase (`no_early_event`) -/
+def MW.win (m : MW) (s : Nat) : Rat := if m.comm.contains s then 2 * prec else prec
 
 def MW.slot (m : MW) (s : Nat) : Option (Rat × Option Rat) :=
   (m.slots.find? (fun x => x.1 == s)).map (·.2)
 
 /-- in-window comparison: `x` is `want`, or earlier by less than the timing precision (exactly `want` on grid programs) -/
-def okDate (grid : Bool) (x want : Rat) : Bool := if grid then x == want else (want - prec < x && x ≤ want)
+def okDate (grid : Bool) (x want : Rat) (w : Rat := prec) : Bool := if grid then x == want else (want - w < x && x ≤ want)
 
 partial def monActor (grid : Bool) (tEnd : Rat) (a : Nat) : List Op → List LEv → MW → Option String
   | ops, evs, m =>
@@ -129,10 +133,11 @@ partial def monActor (grid : Bool) (tEnd : Rat) (a : Nat) : List Op → List LEv
           if e.what != "slept" then bad "expected slept" else
           let want := if d ≤ 0 then m.tcall else m.tcall + clampSleep prec d
           if !okDate grid e.t want then bad s!"sleep not exact: want {want}" else cont erest m e.t
-        | .start s _ d =>
+        | .start s kd d =>
           if e.what != "started" then bad "expected started" else
           if e.t != m.tcall then bad "start takes time" else
-          cont erest { m with slots := (s, e.t, some d) :: m.slots.filter (·.1 != s) } e.t
+          cont erest { m with slots := (s, e.t, some d) :: m.slots.filter (·.1 != s),
+                              comm := if kd == .comm then s :: m.comm else m.comm.filter (· != s) } e.t
         | .mget s _ | .mput s _ =>
           if e.what != "started" then bad "expected started" else
           if e.t != m.tcall then bad "mess start takes time" else
@@ -147,7 +152,7 @@ partial def monActor (grid : Bool) (tEnd : Rat) (a : Nat) : List Op → List LEv
           -- a timed activity tests true iff its natural completion date has been reached
           let chk : Option String := match m.slot s with
             | some (st, some d) =>
-              if e.val == s!"{s},1" && !(st + d - prec < e.t) then bad "test true before the completion date"
+              if e.val == s!"{s},1" && !(st + d - m.win s < e.t) then bad "test true before the completion date"
               else if e.val == s!"{s},0" && st + d ≤ e.t - prec then bad "test false after the completion date"
               else none
             | _ => none
@@ -184,7 +189,7 @@ partial def monActor (grid : Bool) (tEnd : Rat) (a : Nat) : List Op → List LEv
             let c2 : Option String := match nat with
               | some c =>
                 let want := if c < m.tcall then m.tcall else c
-                if !(okDate grid e.t want) then bad s!"completion observed at {e.t}, natural date {c}"
+                if !(okDate grid e.t want (m.win s)) then bad s!"completion observed at {e.t}, natural date {c}"
                 else match tau with
                   | some tau => if c ≥ m.tcall + tau + prec then bad "ok although the activity cannot complete by the deadline" else none
                   | none => none
@@ -200,7 +205,7 @@ partial def monActor (grid : Bool) (tEnd : Rat) (a : Nat) : List Op → List LEv
                     | some st, some fi =>
                       if st != st0 then (er2, bad s!"start time {st} is not the date of the start {st0}")
                       else if !(st ≤ fi && fi ≤ e2.t) then (er2, bad "not start <= finish <= now")
-                      else if !(okDate grid fi (st + d)) then (er2, bad s!"finish time {fi}, natural date {st + d}")
+                      else if !(okDate grid fi (st + d) (m.win s)) then (er2, bad s!"finish time {fi}, natural date {st + d}")
                       else (er2, none)
                     | _, _ => (er2, bad "unparsable times")
                   | _, _ => (er2, bad "unexpected times line")
@@ -233,7 +238,7 @@ partial def monActor (grid : Bool) (tEnd : Rat) (a : Nat) : List Op → List LEv
                 | none => none
               if c1.isSome then c1 else
               let c2 : Option String := match m.slot s with
-                | some (st, some d) => if !(st + d - prec < e.t) then bad "returned an activity before its completion date" else none
+                | some (st, some d) => if !(st + d - m.win s < e.t) then bad "returned an activity before its completion date" else none
                 | _ => none
               if c2.isSome then c2 else cont erest m e.t
 
@@ -270,20 +275,38 @@ def runModel (progs : List (List Op)) (ties : List Nat) : St := run (fuelFor pro
 def agrees (progs : List (List Op)) (log : List LEv) (s : St) : Bool :=
   s.done && s.k.bad.isNone && (List.range progs.length).all (fun a => modelLog s a == implLog log a)
 
-/-- next oracle in depth-first order, from the choices made (`c`, padded with 0) and their arities -/
-def nextOracle (c : List Nat) (ar : List Nat) : Option (List Nat) :=
+/-- index in the model's global log of the first event on which model and implementation differ (actor by actor) -/
+def firstMismatch (progs : List (List Op)) (log : List LEv) (s : St) : Nat :=
+  let idxOf (a : Nat) (p : Nat) : Nat :=
+    -- global index of the p-th event of actor a (log length if there is none)
+    let rec go (l : List (Rat × Ev)) (i cnt : Nat) : Nat :=
+      match l with
+      | [] => i
+      | e :: r => if e.2.actor == a then (if cnt == p then i else go r (i + 1) (cnt + 1)) else go r (i + 1) cnt
+    go s.log 0 0
+  (List.range progs.length).foldl (fun g a =>
+    let m := modelLog s a
+    let im := implLog log a
+    if m == im then g else
+    let p := ((List.range (max m.length im.length)).find? (fun j => m[j]? != im[j]?)).getD 0
+    min g (idxOf a p)) s.log.length
+
+/-- next oracle in depth-first order, from the choices made (`c`, padded with 0), their arities and the log length at
+which each was made: a choice made after the first mismatch cannot repair it, so only choices made at or before it
+are flipped (the last such one that still has an alternative). -/
+def nextOracle (c : List Nat) (ar at_ : List Nat) (g : Nat) : Option (List Nat) :=
   let c := (List.range ar.length).map (fun j => c.getD j 0 % (ar.getD j 1))
   let rec go : Nat → Option (List Nat)
     | 0 => none
     | p+1 =>
-      if c.getD p 0 + 1 < ar.getD p 1 then some (c.take p ++ [c.getD p 0 + 1]) else go p
+      if at_.getD p 0 ≤ g && c.getD p 0 + 1 < ar.getD p 1 then some (c.take p ++ [c.getD p 0 + 1]) else go p
   go ar.length
 
 partial def search (progs : List (List Op)) (log : List LEv) (c : List Nat) (budget : Nat) : Option St × St :=
   let s := runModel progs c
   if agrees progs log s then (some s, s)
   else if budget == 0 then (none, s)
-  else match nextOracle c s.arities.reverse with
+  else match nextOracle c s.arities.reverse s.choiceAt.reverse (firstMismatch progs log s) with
     | none => (none, s)
     | some c' => let r := search progs log c' (budget - 1); (r.1, if r.1.isSome then r.2 else s)
 
